@@ -13,6 +13,8 @@
 #define C02_RT_H
 
 #include <stdlib.h>
+#include <setjmp.h>
+#include <ucontext.h>
 #include <new>
 #include "engines/mutx/mutx.h"
 
@@ -67,13 +69,53 @@ static void OnAbort(int)
    WriteErr("ASSERTION/abort() during phase="); WriteErr(g_phase); WriteErr("\n    #0 0x0 in phase:"); WriteErr(g_phase); WriteErr(" (harness)\n");
    signal(SIGABRT, SIG_DFL); raise(SIGABRT);
 }
+// ---- read containment (used by the micro-Message part only, never in --replay): thousands of cases of one known class (F12: reads
+// outside the buffer) would otherwise each cost a worker process.  While g_containReads is set, an ASan READ report does not end the
+// process (the binary is built with -fsanitize-recover=address and runs with halt_on_error=0) and a SIGSEGV/SIGBUS on a READ access is
+// caught and unwound with siglongjmp; both are recorded and turned into a violation by the case function.  Everything else -- any WRITE,
+// any report outside a contained region -- ends the process with the usual exit code, exactly as with halt_on_error=1.
+static volatile int g_containReads = 0;
+static volatile int g_containedAsanReads = 0;
+static char g_containedKind[64];
+static char g_containedFirst[256];
+static sigjmp_buf g_faultJmp;
+static volatile int g_faultCaught = 0;        // 1 = read fault, 2 = write fault
 static void OnAsanReport(const char * report)
 {
    if (strstr(report, "SEGV on unknown address") || strstr(report, "stack-overflow")) {
       if (strstr(report, "caused by a WRITE memory access")) WriteErr("WRITE of size 0 at wild-address (from SEGV report)\n");
       else if (strstr(report, "caused by a READ memory access")) WriteErr("READ of size 0 at wild-address (from SEGV report)\n");
+      return;   // deadly signal: the runtime ends the process itself
    }
+   const bool isRead = (strstr(report, "\nREAD of size") != NULL) && (strstr(report, "\nWRITE of size") == NULL);
+   if (g_containReads && isRead) {
+      if (g_containedAsanReads++ == 0) {
+         static const char * kinds[] = {"heap-buffer-overflow", "heap-use-after-free", "stack-buffer-overflow", "global-buffer-overflow", "unknown-crash", "use-after-poison", NULL};
+         const char * k = "other"; for (int i = 0; kinds[i]; i++) if (strstr(report, kinds[i])) { k = kinds[i]; break; }
+         strncpy(g_containedKind, k, sizeof(g_containedKind) - 1);
+         const char * e = strstr(report, "ERROR: AddressSanitizer"); if (e) { size_t n = strcspn(e, "\n"); if (n > sizeof(g_containedFirst) - 1) n = sizeof(g_containedFirst) - 1; memcpy(g_containedFirst, e, n); g_containedFirst[n] = 0; }
+      }
+      return;   // recover mode: execution continues after the faulting read
+   }
+   _exit(87);   // same as halt_on_error=1 with exitcode=87
 }
+static void OnFault(int, siginfo_t *, void * ucv)
+{
+   const ucontext_t * uc = (const ucontext_t *)ucv;
+   g_faultCaught = (uc->uc_mcontext.gregs[REG_ERR] & 2) ? 2 : 1;
+   siglongjmp(g_faultJmp, 1);
+}
+struct FaultScope {   // installs the containment handlers for SIGSEGV/SIGBUS and restores the sanitizer's own afterwards
+   struct sigaction oldSegv, oldBus; bool on;
+   explicit FaultScope(bool enable) : on(enable)
+   {
+      g_faultCaught = 0; g_containedAsanReads = 0; g_containedKind[0] = 0; g_containedFirst[0] = 0;
+      if (!on) return;
+      struct sigaction sa; memset(&sa, 0, sizeof(sa)); sa.sa_sigaction = OnFault; sa.sa_flags = SA_SIGINFO | SA_NODEFER | SA_ONSTACK; sigemptyset(&sa.sa_mask);
+      sigaction(SIGSEGV, &sa, &oldSegv); sigaction(SIGBUS, &sa, &oldBus); g_containReads = 1;
+   }
+   ~FaultScope() { if (on) { g_containReads = 0; sigaction(SIGSEGV, &oldSegv, NULL); sigaction(SIGBUS, &oldBus, NULL); } }
+};
 static void InstallDeathAttribution()
 {
    signal(SIGABRT, OnAbort);
